@@ -140,13 +140,30 @@ structure BlockCtx where
   coinbase : Addr
   uncles : List Uncle
   hf4Height : Option Nat
+  hf5Height : Option Nat := none
   dealloc : List Addr
   gasLimit : Nat
 
-/-- `StateProcessor.Process` + `Aquahash.Finalize` for the supply: HF4 at its height, the transactions, the rewards. -/
+/-- `StateDB.Empty(a)`: a QUERY (EIP-161 emptiness of the balance/nonce part); it changes nothing. -/
+def isEmptyAccount (w : SWorld) (a : Addr) : Bool := lookup w.bal a == 0 && lookup w.nonce a == 0
+
+/-- `misc.ApplyHardFork5` AS WRITTEN: `for addr in DeallocListHF4 { if statedb.Exist(addr) { statedb.Empty(addr) } }`. The doc
+    comment says "removes eth presale accounts (not just balances)", but `StateDB.Empty` is the emptiness getter, so the loop
+    evaluates a Bool per listed account and discards it: hard fork 5 does not touch the state (`Props.C05.hf5_is_noop`).
+    Consensus history from the HF5 height on was produced by this code; turning the call into a real removal would burn
+    whatever those accounts hold and fork the chain. -/
+def applyHF5 : List Addr → SWorld → SWorld
+  | [], w => w
+  | a :: as, w => let _queried := isEmptyAccount w a; applyHF5 as w
+
+/-- the state edits `Process` makes before the transactions: HF4 at its height, then HF5 at its height. -/
+def hardForkEdits (c : BlockCtx) (w : SWorld) : SWorld :=
+  let w1 := if c.hf4Height = some c.height then applyHF4 c.dealloc w else w
+  if c.hf5Height = some c.height then applyHF5 c.dealloc w1 else w1
+
+/-- `StateProcessor.Process` + `Aquahash.Finalize` for the supply: HF4/HF5 at their heights, the transactions, the rewards. -/
 def processBlock (env : Env (List Addr)) (c : BlockCtx) (txs : List Msg) (w : SWorld) : Except TxErr (BlockOk (List Addr)) :=
-  process env (fun w => if c.hf4Height = some c.height then applyHF4 c.dealloc w else w)
-    (accumulateRewards c.height c.coinbase c.uncles) c.gasLimit txs w
+  process env (hardForkEdits c) (accumulateRewards c.height c.coinbase c.uncles) c.gasLimit txs w
 
 /-! ## the modelled call sites (compared with the regenerated inventory by `Props.C05.sites_eq_alphabet`) -/
 
